@@ -640,7 +640,7 @@ def rule_W(ctx):
               witness=bad, node=g.node, key='mapOnTrack')
 
 
-def rule_M(ctx):
+def rule_M(ctx, rid='C20.M'):
     """C20.M the whole chain mapOnTrack -> __projOnTrack -> proj_polyligne -> proj_segment interpreted on configuration classes of
     (reference polyline, query point): query nearest to the interior of a segment / to a vertex / exactly on a vertex / beyond the first
     or the last vertex / on the polyline; polylines with an acute turn, a repeated vertex, a long segment straddling the query after a
@@ -825,7 +825,7 @@ def rule_M(ctx):
                            'history': 'every point returned by the first round of queries was moved by (+5, -7) in place by the caller; the query is asked again',
                            'first answer (x, y, distance, segment)': list(first[k]), 'second answer': list(now) if now else repr(r_[0]),
                            'violated': 'the returned point is the caller\'s own object: editing it does not edit the reference polyline'}
-    ctx.check(bad is None, 'C20.M', g, 'mapOnTrack returns, for every query, the nearest point of the reference polyline, its distance and the index of a segment '
+    ctx.check(bad is None, rid, g, 'mapOnTrack returns, for every query, the nearest point of the reference polyline, its distance and the index of a segment '
               'that carries it (%d query/polyline configurations, track and single-coordinate forms)' % n_cases,
               witness=bad, node=g.node, key='mapOnTrack-geometry')
 
